@@ -18,6 +18,20 @@ class TypeCtx:
     def kind(self, ti):
         return self.types[ti]["k"]
 
+    def same(self, a, b):
+        """Type equality up to the driver's interning of erased regions (two ids may print identically)."""
+        if a == b:
+            return True
+        if not isinstance(a, int) or not isinstance(b, int):
+            return False
+        k = (a, b) if a < b else (b, a)
+        r = self._same.get(k) if hasattr(self, "_same") else None
+        if r is None:
+            if not hasattr(self, "_same"):
+                self._same = {}
+            r = self._same[k] = (self.F.ty_s(a) == self.F.ty_s(b))
+        return r
+
     def s(self, ti):
         return self.types[ti]["s"]
 
